@@ -692,14 +692,22 @@ Definition lz_insert (a : arr) (i : Z) (x : arr) : res arr :=
 
 (* _lazy_cat(out=lazy), branch out.stack_dim == dim (_torch_func.py:436-442): the member slices each operand is
    written to.  [n_out] members in out, operand sizes along dim. *)
-Fixpoint cat_out_slices (n_out : Z) (init_idx : Z) (sizes : list Z) : list (Z * Z) :=
+Fixpoint cat_out_slices_gen (fixed : bool) (n_out : Z) (init_idx : Z) (sizes : list Z) : list (Z * Z) :=
   match sizes with
   | [] => []
   | s :: r =>
       let lo := Z.min init_idx n_out in
       let hi := Z.min (init_idx + s) n_out in          (* Python slicing truncates *)
-      (lo, hi) :: cat_out_slices n_out (if fixed_D13 then init_idx + s else init_idx + (init_idx + s)) r
+      (lo, hi) :: cat_out_slices_gen fixed n_out (if fixed then init_idx + s else init_idx + (init_idx + s)) r
   end.
+Definition cat_out_slices := cat_out_slices_gen fixed_D13.
+(* what the branch does with those slices today: an EMPTY slice makes maybe_dense_stack([]) raise, a truncated one makes
+   the update raise (shape mismatch); otherwise the operand is written into maybe_dense_stack(slice) -- a dense COPY when
+   the members stack densely -- so out stays as it was *)
+Inductive cat_out_outcome := CatRaises | CatOutUnchanged | CatWritten.
+Definition cat_out_result (n_out : Z) (sizes : list Z) : cat_out_outcome :=
+  if existsb (fun p => negb (snd (fst p) - fst (fst p) =? snd p)) (combine (cat_out_slices n_out 0 sizes) sizes) then CatRaises
+  else if fixed_D13 then CatWritten else CatOutUnchanged.
 (* spec: operand k goes to members [sum_{i<k} n_i, sum_{i<=k} n_i) *)
 Definition cat_spec_slices (sizes : list Z) : list (Z * Z) := offsets 0 sizes.
 
